@@ -35,7 +35,10 @@ def make_scratch(edits, patch=None):
         r = subprocess.run(["git", "apply", patch], cwd=d, stdout=subprocess.PIPE, stderr=subprocess.STDOUT, text=True)
         shutil.rmtree(os.path.join(d, ".git"), ignore_errors=True)
         if r.returncode != 0:
-            return d, "patch does not apply to the current tree: %s" % r.stdout.strip()[:120]
+            # the tree moved on since the seed was stored (later fix commits): retry with context fuzz
+            r2 = subprocess.run(["patch", "-p1", "-F3", "--no-backup-if-mismatch", "-i", patch], cwd=d, stdout=subprocess.PIPE, stderr=subprocess.STDOUT, text=True)
+            if r2.returncode != 0:
+                return d, "patch does not apply to the current tree: %s" % r.stdout.strip()[:120]
     for e in edits:
         p = os.path.join(d, e["file"])
         if not os.path.exists(p):
@@ -58,7 +61,7 @@ def make_scratch(edits, patch=None):
     return d, None
 
 
-def run_checks(scratch, props, slot):
+def run_checks(scratch, props, slot, raw=False):
     """returns {prop: [violation keys]} using a private target dir for this worker slot"""
     target = os.path.join(extract.CACHE, "target-st-%d" % slot)
     if not os.path.isdir(target):
@@ -75,7 +78,7 @@ def run_checks(scratch, props, slot):
         mod = importlib.import_module("rules.props." + p)
         ctx = core.Ctx(p, F, "default", "quick")
         mod.run(ctx)
-        res[p] = [(o.key, o.detail) for o in ctx.obs if not o.ok and o.key not in KNOWN_KEYS]
+        res[p] = [(o.key, o.detail) for o in ctx.obs if not o.ok and (raw or o.key not in KNOWN_KEYS)]
     return res
 
 
@@ -90,10 +93,18 @@ def one(args):
             rec["detail"] = err
             return rec
         try:
-            res = run_checks(scratch, m["props"], slot)
+            res = run_checks(scratch, m["props"], slot, raw=(m["kind"] == "repair"))
         except SystemExit as e:
             rec["status"] = "invalid"
             rec["detail"] = "mutant does not build: %s" % e
+            return rec
+        if m["kind"] == "repair":
+            # a scratch copy in which ONE recorded finding is repaired: exactly that key must disappear, nothing new may appear
+            keys = [k for p in m["props"] for k, _ in res.get(p, [])]
+            new = [k for k in keys if k not in KNOWN_KEYS]
+            still = m["gone"] in keys
+            rec["status"] = "silent" if (not still and not new) else "FALSE-ALARM"
+            rec["detail"] = "" if rec["status"] == "silent" else ("repaired finding still reported: %s" % m["gone"] if still else "new: %s" % new[:3])
             return rec
         if m["kind"] == "break":
             keys = [k for p in m["props"] for k, _ in res.get(p, [])]
@@ -161,7 +172,7 @@ def main():
             bad += 1
         print("%s %-11s %-45s %5.1fs  %s" % (flag, r["status"], r["id"], r["wall_s"], r["detail"][:200]))
     summ = {"break": sum(1 for r in recs if r["kind"] == "break"), "detected": sum(1 for r in recs if r["status"] == "detected"),
-            "equiv": sum(1 for r in recs if r["kind"] == "equiv"), "silent": sum(1 for r in recs if r["status"] == "silent"),
+            "equiv": sum(1 for r in recs if r["kind"] in ("equiv", "repair")), "silent": sum(1 for r in recs if r["status"] == "silent"),
             "skipped": sum(1 for r in recs if r["status"] == "skipped"), "bad": bad}
     print("selftest:", json.dumps(summ))
     if a.json:
